@@ -34,6 +34,11 @@ a pickup measure for rows with negative beat onsets, and ties over barlines; div
 the first row may start later (the array opens with a rest or is an excerpt).  The note array of the rebuilt score must state
 the same beat onsets (as they are: the pickup is representable), durations, division columns and pitches.
 
+Inverse direction with changing time signatures (inverse-ts): note arrays whose ts_beats / ts_beat_type columns change
+along the array - every sequence of 2-3 time signatures (a signature may come back after another one; equal and different
+beat units), 1-2 measures each, with notes inside, over the barlines and over the signature changes; the beat columns are the
+exact beat map of the sequence and must come back from the rebuilt score, with the division columns and pitches.
+
 Magnitude space (part-magnitude): the small parts again at large tick values - every time and quarter duration of the
 frame multiplied by a factor (480, 10080, 302400 divisions per quarter times the frame's own), and notes / rests placed
 in a late section of the part whose tick values lie around 2^24, around 2^30 and just below 2^31 (the int32 division
@@ -60,7 +65,8 @@ RULE = (
     "sequence of 1-2 edits of the alphabet, the arrays are taken before the first and after every edit (tie edit spaces: the "
     "same with the alphabet of tie chain edits on a content with tie chains and notes that can be tied); inverse-m*: time "
     "signature form x pickup length x sorted rows over position / duration alphabets x column kinds x voice column; "
-    "part-magnitude: frame x 1-2 events x (factor, place of the late section) x which events are late"
+    "part-magnitude: frame x 1-2 events x (factor, place of the late section) x which events are late; inverse-ts: "
+    "sequence of 2-3 time signatures x measures per signature x content pattern per signature x pickup x column kinds x voice column"
 )
 ASSUMPTIONS = [
     "parts are built through the public API (Part, add, set_quarter_duration, tie links); the first time point is 0",
@@ -87,6 +93,13 @@ ASSUMPTIONS = [
     "its main note at the same onset in the same voice (create_part documents the removal of grace notes without main note); "
     "pickups on a grid of halves or of thirds of a beat, and of 3/2 beats on the grid of thirds (negative onsets -7/6, -5/6: "
     "the pickup length was truncated to one division less for float32 beat-only arrays, repaired in /repo e6b4838)",
+    "inverse direction with changing time signatures (inverse-ts): the array is the table of a part whose signatures change at "
+    "barlines, every signature lasts a whole number of measures and has a row at its start (the columns state a signature at "
+    "row onsets only, note_array_to_score puts a signature at the first row that carries it); onset_beat / duration_beat are the "
+    "beat map of that part (a beat = the beat unit in force, 0 at the end of the pickup measure), duration_beat of a row that "
+    "sounds over a change = beat map at its end - beat map at its onset; beat and division columns together when the beat "
+    "unit changes (create_divs_from_beats documents that beat-only arrays need uniform beat units); the time signature and "
+    "metrical columns of the rebuilt score are not compared (the statement names onsets, durations and pitches)",
     "rest arrays: the dummy spelling columns are not compared; collapse=True is outside the statement; rest arrays of "
     "lists / groups are checked for parts with equal divisions only (no rescaling is stated for them), a one-element "
     "list may or may not prefix its ids",
@@ -984,8 +997,129 @@ def eval_inverse_measures(case):
     return res
 
 
+def invts_table(case):
+    """rows (onset, duration in quarters from division 0, (beats, beat_type) at the onset, pitch), the starts of the
+    stretches in quarters and the length of the pickup in quarters, from the case description"""
+    seq = case["seq"]
+    rows = []
+    t = F(0)
+    if case["pickup"]:
+        nb, bt = seq[0][0], seq[0][1]
+        rows.append((t, F(4, bt), (nb, bt)))
+        t += F(4, bt)
+    P = t
+    starts = []
+    for nb, bt, m, pat in seq:
+        u = F(4, bt)
+        starts.append((t, nb, bt))
+        if pat == "beats":
+            for b in range(nb * m):
+                rows.append((t + b * u, u, (nb, bt)))
+        elif pat == "first":
+            rows.append((t, u, (nb, bt)))
+        elif pat == "bar":
+            rows.append((t, u * nb * m, (nb, bt)))
+        elif pat == "cross":
+            rows.append((t, u, (nb, bt)))
+            rows.append((t + (nb * m - 1) * u, 2 * u, (nb, bt)))
+        else:
+            raise ValueError(pat)
+        t += nb * m * u
+    rows = [(o, d, ts, 60 + (5 * k) % 12) for k, (o, d, ts) in enumerate(rows)]
+    return rows, starts, P
+
+
+def invts_beat(tq, starts, P):
+    """beats from the end of the pickup measure to the time tq (quarters from division 0): exact sum over the stretches"""
+    if tq < P:
+        return (tq - P) / F(4, starts[0][2])
+    b = F(0)
+    for i, (s, _nb, bt) in enumerate(starts):
+        e = starts[i + 1][0] if i + 1 < len(starts) else None
+        if e is None or tq < e:
+            return b + (tq - s) / F(4, bt)
+        b += (e - s) / F(4, bt)
+    raise AssertionError
+
+
+def eval_inverse_ts(case):
+    """note array whose ts_beats / ts_beat_type columns change along the array (the table of a part with 2-3 time
+    signatures, a signature may come back) -> note_array_to_score -> note array: the same onsets, durations, pitches"""
+    import numpy as np
+    from partitura.musicanalysis.note_array_to_score import note_array_to_score
+
+    res = CaseResult(states=1, transitions=0, traces=1)
+    kind, divs, vm = case["kind"], case["divs"], case["voice"]
+    rows, starts, P = invts_table(case)
+    cols = []
+    if kind in ("beat", "both"):
+        cols += [("onset_beat", "f4"), ("duration_beat", "f4")]
+    if kind in ("div", "both"):
+        cols += [("onset_div", "i4"), ("duration_div", "i4")]
+    cols += [("pitch", "i4")]
+    if vm:
+        cols += [("voice", "i4")]
+    cols += [("ts_beats", "i4"), ("ts_beat_type", "i4")]
+    data, exp_beat, exp_div = [], [], []
+    for k, (o, d, ts, p) in enumerate(rows):
+        ob = invts_beat(o, starts, P)
+        db = invts_beat(o + d, starts, P) - ob
+        od, dd = o * divs, d * divs
+        assert od.denominator == 1 and dd.denominator == 1
+        t = ()
+        if kind in ("beat", "both"):
+            t += (float(ob), float(db))
+            exp_beat.append((float(ob), float(db), p))
+        if kind in ("div", "both"):
+            t += (int(od), int(dd))
+            exp_div.append((int(od), int(dd), p))
+        t += (p,)
+        if vm:
+            t += (G.invm_voice(vm, k),)
+        t += ts
+        data.append(t)
+    arr = np.array(data, dtype=cols)
+    ctx = "kind=%s time signatures (beats, beat type, measures, content)=%s pickup=%d divs=%d voice=%s rows=%s" % (
+        kind, case["seq"], case["pickup"], divs, vm, [tuple(x) for x in arr.tolist()])
+    kw = {"divs": divs} if kind == "div" else {}
+    res.transitions += 2
+    ok, sc = call(res, "score-built-from-array", lambda: note_array_to_score(arr.copy(), **kw), ctx)
+    if not ok:
+        res.outcome = "inverse-exception"
+        return res
+    ok, na = call(res, "array-of-rebuilt-score", lambda: sc.note_array(), ctx)
+    if not ok:
+        res.outcome = "inverse-exception"
+        return res
+    if len(na) != len(rows):
+        res.fail("inverse-row-set", expected=len(rows), observed=len(na), where="note_array_to_score", detail=ctx)
+        res.outcome = "inverse-rows"
+        return res
+
+    def srt(lst):
+        return sorted(lst, key=lambda x: (round(x[0], 4), x[2], round(x[1], 4)))
+
+    if kind in ("beat", "both"):
+        exp = srt(exp_beat)
+        ob = srt([(float(r["onset_beat"]), float(r["duration_beat"]), int(r["pitch"])) for r in na])
+        if any(abs(a[0] - b[0]) > 1e-5 or abs(a[1] - b[1]) > 1e-5 or a[2] != b[2] for a, b in zip(exp, ob)):
+            res.fail("inverse-beat", expected=exp, observed=ob, where="note_array_to_score", detail=ctx)
+    if kind in ("div", "both"):
+        exp = sorted(exp_div)
+        ob = sorted((int(r["onset_div"]), int(r["duration_div"]), int(r["pitch"])) for r in na)
+        if exp != ob:
+            res.fail("inverse-div", expected=exp, observed=ob, where="note_array_to_score", detail=ctx)
+    sigs = [(nb, bt) for nb, bt, _m, _p in case["seq"]]
+    res.outcome = "inverse-ts kind=%s sigs=%d recurs=%d units=%d pickup=%d rows=%d over-change=%d" % (
+        kind, len(sigs), 1 if len(set(sigs)) < len(sigs) else 0, len(set(bt for _nb, bt in sigs)), case["pickup"], len(rows),
+        sum(1 for o, d, _ts, _p in rows if any(o < s < o + d for s, _nb, _bt in starts)))
+    return res
+
+
 def eval_case(case):
     sp = case["sp"]
+    if sp.startswith("inverse-ts"):
+        return eval_inverse_ts(case)
     if sp == "score-edit":
         return eval_score_edit(case)
     if sp.startswith("part-edit"):
@@ -1426,6 +1560,22 @@ def gen_inverse_mtrip(block=None):
                 yield c
 
 
+B_INVTS = 192
+
+
+def gen_inverse_ts(tier, block=None):
+    """the same content pattern in every stretch: complete (quick: arrays without a voice column or without beat columns
+    in a hash block of 4 only); mixed patterns: complete in the thorough tier, hash block `block` of B_INVTS in the quick tier"""
+    for c in G.inverse_ts_cases(False):
+        c = dict(c, sp="inverse-ts")
+        if block is None or (c["voice"] and c["kind"] != "div") or block_of(c, 4) == block % 4:
+            yield c
+    for c in G.inverse_ts_cases(True):
+        c = dict(c, sp="inverse-ts")
+        if block is None or block_of(c, B_INVTS) == block:
+            yield c
+
+
 def spaces(tier, seed):
     nf = len(G.frame_keys())
     fb = "frames: %d valid of meters %s x division plans %s x key plans %s" % (nf, G.METER_NAMES, G.DIVPLANS, G.KEYPLANS)
@@ -1601,6 +1751,24 @@ def spaces(tier, seed):
         out.append(Space("inverse-m2", lambda: gen_inverse_m2(None), True, "as inverse-m1 with 2 rows (sorted; pitches (60,64) and (61,61))"))
         out.append(Space("inverse-m3", lambda: gen_inverse_m3(None), True, "as inverse-m1 with " + tb3))
         out.append(Space("inverse-mtrip", lambda: gen_inverse_mtrip(None), True, "as inverse-m1 on a " + tbt))
+    sb = ("note arrays whose ts_beats / ts_beat_type columns change along the array (tables of a part with several time "
+          "signatures): every sequence of 2 or 3 time signatures of %s in which neighbours differ (a signature may come back after "
+          "another one, A B A; equal and different beat units) x %s measures per signature x content of every stretch of one "
+          "signature {a note on every beat, one note of a beat at its start, one note from its start to its end (over its "
+          "barlines), a note at its start + a note of two beats on its last beat that sounds on under the next signature} x "
+          "{no pickup, pickup measure of one beat with one note, its start is division 0} x {beat + division columns, beat "
+          "columns (beat type 4 only), division columns with divs given (no pickup)} x voice column {alternating voices, none}; "
+          "%d divisions per quarter; every stretch starts with a row (the array states a signature at row onsets only); the beat "
+          "columns of the array are the exact beat map of that signature sequence (a beat = the beat unit in force), compared "
+          "as they are with the array of the rebuilt score, with the division columns and pitches" % (
+              G.INVTS_TS, G.INVTS_MEASURES, G.INVTS_DIVS))
+    if tier == "quick":
+        b = seed % B_INVTS
+        out.append(Space("inverse-ts", lambda b=b: gen_inverse_ts("quick", b), True,
+                         sb + "; the same content in every stretch: complete with a voice column and beat columns, block %d of 4 of the others; "
+                         "different contents: block %d of %d (hash of the case)" % (b % 4, b, B_INVTS)))
+    else:
+        out.append(Space("inverse-ts", lambda: gen_inverse_ts("thorough"), True, sb + "; complete (every assignment of contents to stretches)"))
     return out
 
 
